@@ -430,6 +430,8 @@ pub struct Host<'p> {
     pub probe_paused: bool,
     pub pauses_taken: u64,
     pub pauses_with_snapshot_hint: u64,
+    /// clock reads made by the calls of the last sliced continue (sum over its calls)
+    pub last_sliced_reads: u64,
     pub async_limit_ms: f32,
 }
 
@@ -467,6 +469,7 @@ impl<'p> Host<'p> {
             probe_paused: false,
             pauses_taken: 0,
             pauses_with_snapshot_hint: 0,
+            last_sliced_reads: 0,
             async_limit_ms: 1.0,
         };
         let want_regs = cfg.observers.clone();
@@ -633,13 +636,14 @@ impl<'p> Host<'p> {
         }
     }
 
-    fn sliced(&mut self, pauses: &[u32], finish_plain: bool) -> Res {
+    fn sliced(&mut self, pauses: &[u32], finish_plain: bool, repeat_last: bool) -> Res {
         if !self.can_continue() {
             return Res::Noop;
         }
         let limit = self.async_limit_ms;
         let jump_ns = ((limit as u64) + 2) * 1_000_000;
         seams::clock_arm();
+        self.last_sliced_reads = 0;
         let mut i = 0usize;
         let mut calls = 0u32;
         let res = loop {
@@ -647,7 +651,11 @@ impl<'p> Host<'p> {
             if calls > 10_000 {
                 break Res::Err("Harness".into(), "sliced continue did not finish in 10000 calls".into());
             }
-            let p = pauses.get(i).copied();
+            let p = match pauses.get(i).copied() {
+                Some(p) => Some(p),
+                None if repeat_last => pauses.last().copied(),
+                None => None,
+            };
             let use_plain = p.is_none() && finish_plain;
             let r = if use_plain {
                 seams::clock_begin_call(0, 0, 0);
@@ -657,6 +665,7 @@ impl<'p> Host<'p> {
                 self.guard(|s| s.continue_async(limit))
             };
             i += 1;
+            self.last_sliced_reads += seams::clock_reads();
             if let Err(e) = r {
                 break e;
             }
@@ -724,7 +733,7 @@ impl<'p> Host<'p> {
                     Err(e) => e,
                 }
             }
-            Op::ContinueSliced { pauses, finish_plain } => self.sliced(pauses, *finish_plain),
+            Op::ContinueSliced { pauses, finish_plain, repeat_last } => self.sliced(pauses, *finish_plain, *repeat_last),
             Op::Choose(k) => {
                 if self.can_continue() {
                     return Res::Noop;
